@@ -231,15 +231,16 @@ fn select(op: &FormulaOperator, lhs: Value, rhs: Value) -> (r: Result<Fx, TermEr
     fns = {"select": "C02.term.operator_table"}
     # ---- left fold (loop structure of term(), dispatch abstracted)
     stm = vlib.split_statements(body)
-    loop = [s for s in stm if s.startswith("for (op, rhs) in &trm.rhs")]
+    loop = [s for s in stm if re.match(r"for\s+\(\s*op\s*,\s*\w+\s*\)\s+in\s+(?:&trm\.rhs|trm\.rhs\.iter\(\))\s*\{", s)]
     if len(loop) != 1:
         raise AnchorLost("term(): the fold loop `for (op, rhs) in &trm.rhs` not found")
+    rhs_name = re.match(r"for\s+\(\s*op\s*,\s*(\w+)\s*\)", loop[0]).group(1)          # the loop's name for the operand node
     lbody = loop[0][loop[0].index("{"):]
     inner = vlib.split_statements(lbody)
     # statement-by-statement transcription of the loop body: known shapes are mapped to the abstract
     # step, anything else is abstracted but keeps its control-flow exits and its writes to `lhs`
     shapes = [
-        (r"let rhs = factor\(&rhs, env, p\)\?;$", "let rhs = factor(&rhs_list[i].1)?;"),
+        (r"let rhs = factor\(&?%s, env, p\)\?;$" % rhs_name, "let rhs = factor(&rhs_list[i].1)?;"),
         (r"let new_fxn\s*:\s*Box<dyn MechFunction>\s*=\s*match op\b", "let new_fxn = dispatch(op, lhs, rhs)?;"),
         (r"new_fxn\.solve\(\);$", "/* new_fxn.solve(); */"),
         (r"let (\w+) = new_fxn\.out\(\);$", r"let \1 = solve_out(op, &new_fxn);"),
